@@ -8,11 +8,15 @@ package main
 // Lines (every line repeats the curve parameters, the Lean driver is stateless):
 //   C03 curve -                      <curve> <grp> <field> <a> <b> <r> <G>        parameters valid: G ∈ E, [r]G = O
 //   C03 sm    <aff|jac|jacalias|base|basejac> <curve> <grp> <field> <a> <b> <r> <G> <w> <lam> <e> <P> <s>
+//   C03 smx   … same as sm; the Lean side computes the specification value only (no hand model): the must-have scalar classes
 //   C03 joint <gen|base>             <curve> <grp> <field> <a> <b> <r> <G> <e1> <P> <e2> <Q> <s1> <s2>
 //   C03 jointbig … same as joint, |s| ≥ 2^(64·fr.Limbs) (reproduces the known index panic; kept under its own kind)
 //   C03 batch -                      <curve> <grp> <field> <a> <b> <r> <G> <e> <P> <s,s,…|->
+//   C03 batchpow -                   <curve> <grp> <field> <a> <b> <r> <G> <e> <P> <N> <α> <β> <i,i,…|->   batch of the N scalars
+//                                    s_i = β·α^i mod r; only the entries i of the sample are printed (large batches: every window size)
 //   C03 tecurve -                    <curve> <q> <a> <d> <order> <base>           parameters valid: B ∈ E, [order]B = O
 //   C03 te    <aff|proj|ext>         <curve> <q> <a> <d> <order> <base> <e> <P> <s>
+//   C03 tex   … same as te, specification value only
 //   C03 split <r> <lam> <s>          PrecomputeLattice + SplitScalar
 // field = fp:<p> | fp2:<p>:<β> | fp4:<p>:<β>:<γ0>,<γ1>; elements = comma separated hex coordinates; points = inf | x;y;
 // P = [e]G (e known so that the model computes the expected value in the exponent); scalars signed hex.
@@ -161,7 +165,7 @@ func execC03(a []string) string {
 			return "bad-params"
 		}
 		return "ok"
-	case "te":
+	case "te", "tex":
 		if len(a) != 11 {
 			return "bad-op"
 		}
@@ -175,7 +179,7 @@ func execC03(a []string) string {
 		return t.sm(a[1], a[9], parseBig(a[10]))
 	}
 	switch a[0] {
-	case "curve", "sm", "joint", "jointbig", "batch":
+	case "curve", "sm", "smx", "joint", "jointbig", "batch", "batchpow":
 	default:
 		return "bad-op"
 	}
@@ -195,7 +199,7 @@ func execC03(a []string) string {
 	}
 	chk := func(e, P string) bool { return g.naive(parseBig(e)) == P }
 	switch a[0] {
-	case "sm":
+	case "sm", "smx":
 		if len(rest) != 5 {
 			return "bad-op"
 		}
@@ -241,6 +245,8 @@ func execC03(a []string) string {
 			}
 		}
 		return g.batch(rest[1], ss)
+	case "batchpow":
+		return g.batchPow(rest)
 	}
 	return "bad-op"
 }
@@ -337,6 +343,23 @@ func genC03(g *gen) {
 		}
 		g.emit("C03 split %s %s %s", hexBig(r), hexBig(lam), hexBig(s))
 	}
+	// groups that get a sampled formula batch in the quick tier (1: mid-size window, 2: large batch on a cheap G1)
+	quickBP := map[string]int{}
+	{
+		var withBatch, cheap []string
+		for _, k := range gs {
+			if gr := c03Groups[k]; gr.batch != nil {
+				withBatch = append(withBatch, k)
+				if strings.HasPrefix(gr.field, "fp:") && gr.p.BitLen() <= 384 {
+					cheap = append(cheap, k)
+				}
+			}
+		}
+		for _, k := range c03Shuffle(g.rng, withBatch)[:4] {
+			quickBP[k] = 1
+		}
+		quickBP[cheap[g.rng.intn(len(cheap))]] = 2
+	}
 	for _, k := range gs {
 		gr := c03Groups[k]
 		var lam *big.Int
@@ -396,6 +419,81 @@ func genC03(g *gen) {
 		if !g.thorough() && cost > 4 {
 			must = must[:4]
 		}
+		cls0 := len(must) // must[cls0:cls1] = the class lines: mostly `smx` (specification value only on the Lean side)
+		variants := []string{"aff", "jac", "jacalias", "base", "basejac"}
+		if gr.noBaseJac {
+			variants = variants[:4]
+		}
+		ptFor := func(v string, i int) pt { // base variants need G; the others alternate G / random point (thorough)
+			if v[:2] == "ba" || !g.thorough() || i%3 != 0 {
+				return pts[1]
+			}
+			return prand
+		}
+		// class (a): word-sparse scalars, every entry point: one with zero low words and one with a zero interior word
+		// (thorough: all of them), mixed signs
+		low, inter := c03Sparse(g.rng, gr.limbs+1)
+		low, inter = c03Shuffle(g.rng, low), c03Shuffle(g.rng, inter)
+		for vi, v := range variants {
+			if g.thorough() {
+				for i, s := range append(append([]*big.Int(nil), low...), inter...) {
+					if (i+vi)%len(variants) < 3 { // every scalar through three of the entry points
+						must = append(must, smLine{v, ptFor(v, i+vi), g.rng.signed(s)})
+					}
+				}
+				continue
+			}
+			a, b := low[vi%len(low)], inter[vi%len(inter)]
+			if vi%2 == 0 {
+				a = new(big.Int).Neg(a)
+			} else {
+				b = new(big.Int).Neg(b)
+			}
+			must = append(must, smLine{v, pts[1], a}, smLine{v, pts[1], b})
+		}
+		// class (b): GLV-unbalanced scalars for both eigenvalues (the package uses one of them), both directions,
+		// presented as s, s − r or s + r; inverses of small integers
+		if lam != nil {
+			l2 := new(big.Int).Mul(lam, lam)
+			l2.Mod(l2, gr.r)
+			present := func(s *big.Int) *big.Int {
+				switch g.rng.intn(3) {
+				case 0:
+					return new(big.Int).Sub(s, gr.r)
+				case 1:
+					return new(big.Int).Add(s, gr.r)
+				}
+				return s
+			}
+			vi := g.rng.intn(len(variants))
+			for _, l := range []*big.Int{lam, l2} {
+				lo, hi := c03Unbalanced(g.rng, gr.r, l)
+				for _, cls := range [][]c03Unb{lo, hi} {
+					nq := g.budget(2, 8)
+					if !g.thorough() && cost > 4 {
+						nq = 1
+					}
+					for i, u := range c03PickUnb(g.rng, cls, nq) {
+						v := variants[vi%len(variants)]
+						vi++
+						must = append(must, smLine{v, ptFor(v, i), present(u.s)})
+					}
+				}
+			}
+			invs := c03SmallInverses(gr.r)
+			if !g.thorough() {
+				invs = append(invs[:1:1], c03Shuffle(g.rng, invs[1:])[:2]...)
+			}
+			for i, s := range invs {
+				v := variants[vi%len(variants)]
+				vi++
+				must = append(must, smLine{v, ptFor(v, i), present(s)})
+				if g.thorough() && i%2 == 0 {
+					must = append(must, smLine{v, ptFor(v, i+1), new(big.Int).Sub(gr.r, s)})
+				}
+			}
+		}
+		cls1 := len(must)
 		nr := int(float64(g.budget(2, 160)) / cost)
 		if nr < g.budget(1, 24) {
 			nr = g.budget(1, 24)
@@ -403,14 +501,81 @@ func genC03(g *gen) {
 		for i := 0; i < nr; i++ {
 			must = append(must, all[g.rng.intn(len(all))])
 		}
-		for _, l := range must {
-			g.emit("C03 sm %s %s %s %s %s %s %s", l.v, gr.params(), gr.w, gr.lam, l.P.e, l.P.tok, hexBig(l.s))
+		for i, l := range must {
+			op := "sm"
+			if i >= cls0 && i < cls1 && (i-cls0)%g.budget(16, 12) != 0 {
+				op = "smx"
+			}
+			g.emit("C03 %s %s %s %s %s %s %s %s", op, l.v, gr.params(), gr.w, gr.lam, l.P.e, l.P.tok, hexBig(l.s))
 		}
 		// joint: pairs of lattice scalars; scalars ≥ 2^(64·limbs) go under `jointbig`
 		lim := bigPow2(64 * gr.limbs)
 		nj := g.budget(2, 60)
 		if gr.joint == nil {
 			nj = 0
+		}
+		// joint must-have lines: the two scalars occupy different numbers of 64-bit words (both directions, incl. 0),
+		// word-sparse scalars; all below 2^(64·limbs)
+		if gr.joint != nil {
+			type jl struct {
+				v      string
+				s1, s2 *big.Int
+			}
+			var js []jl
+			inLim := func(l []*big.Int) (o []*big.Int) {
+				for _, s := range l {
+					if s.Cmp(lim) < 0 {
+						o = append(o, s)
+					}
+				}
+				return
+			}
+			lowJ, interJ := inLim(low), inLim(inter)
+			full := func() *big.Int { return g.rng.bigExact(n - g.rng.intn(2)) }
+			if g.thorough() {
+				for w1 := 0; w1 <= gr.limbs; w1++ {
+					for w2 := 0; w2 <= gr.limbs; w2++ {
+						if w1 == w2 && w1 != gr.limbs {
+							continue
+						}
+						mk := func(w int) *big.Int {
+							if w == 0 {
+								return new(big.Int)
+							}
+							return g.rng.bigExact(64*(w-1) + 1 + g.rng.intn(64))
+						}
+						js = append(js, jl{[]string{"gen", "base"}[(w1+w2)%2], g.rng.signed(mk(w1)), g.rng.signed(mk(w2))})
+					}
+				}
+				for i, s := range append(append([]*big.Int(nil), lowJ...), interJ...) {
+					o := append(append([]*big.Int(nil), interJ...), lowJ...)[i]
+					if i%2 == 0 {
+						js = append(js, jl{"gen", g.rng.signed(s), g.rng.signed(full())})
+					} else {
+						js = append(js, jl{"base", g.rng.signed(o), g.rng.signed(s)})
+					}
+				}
+			} else {
+				js = []jl{
+					{"gen", g.rng.signed(g.rng.word()), g.rng.signed(full())},
+					{"base", g.rng.signed(full()), g.rng.signed(g.rng.word())},
+					{"gen", g.rng.signed(lowJ[0]), g.rng.signed(interJ[0])},
+					{"base", g.rng.signed(interJ[len(interJ)-1]), g.rng.signed(lowJ[len(lowJ)-1])},
+				}
+				if cost <= 4 {
+					js = append(js, jl{"gen", new(big.Int), g.rng.signed(lowJ[1%len(lowJ)])}, jl{"base", g.rng.signed(g.rng.bigExact(65 + g.rng.intn(63))), new(big.Int)})
+				}
+			}
+			for i, l := range js {
+				// quick: P = Q = G except on the first line (the model side pays one scalar multiplication per random point)
+				P, Q := pts[1], pts[1]
+				if i%2 == 0 && (g.thorough() || i == 0) {
+					Q = prand
+				} else if l.v == "gen" && g.thorough() {
+					P = prand
+				}
+				g.emit("C03 joint %s %s %s %s %s %s %s %s", l.v, gr.params(), P.e, P.tok, Q.e, Q.tok, hexBig(l.s1), hexBig(l.s2))
+			}
 		}
 		for i := 0; i < nj; i++ {
 			s1 := scal[g.rng.intn(len(scal))]
@@ -439,6 +604,66 @@ func genC03(g *gen) {
 				lens = []int{0, 1, 2, 3, 7, 20, 100}
 				if k == "bn254/g1" {
 					lens = append(lens, 1000)
+				}
+			}
+			// formula batches on both sides of every change of the window size (thorough), a sample of the entries checked
+			if g.thorough() {
+				bits := uint64(gr.r.BitLen())
+				var sizes []int
+				for i, N := range c03BatchSizes(bits, 1<<16) {
+					// below / at each change; where both windows need a table of ≥ 2^12 entries only the upper side
+					if i%2 == 0 && c03BestC(bits, uint64(N)) >= 13 {
+						continue
+					}
+					sizes = append(sizes, N)
+				}
+				// beyond every change of the window size of the cost model extended to c = 17 (24577 for 253-bit orders)
+				sizes = append(sizes, 3<<13+1+g.rng.intn(1<<13))
+				for si, N := range sizes {
+					if N < 8 {
+						continue
+					}
+					P := pts[1]
+					if si%4 == 3 {
+						P = prand
+					}
+					idx := []string{"0", hexBig(big.NewInt(int64(N - 1)))}
+					for i := 0; i < 3; i++ {
+						idx = append(idx, hexBig(big.NewInt(int64(g.rng.intn(N)))))
+					}
+					alpha, beta := g.rng.bigBelow(gr.r), g.rng.bigBelow(gr.r)
+					if si%5 == 4 {
+						beta = new(big.Int).Sub(gr.r, one)
+					}
+					g.emit("C03 batchpow - %s %s %s %s %s %s %s", gr.params(), P.e, P.tok, hexBig(big.NewInt(int64(N))), hexBig(alpha), hexBig(beta), strings.Join(idx, ","))
+				}
+				g.emit("C03 batchpow - %s %s %s 9 1 %s 0,8", gr.params(), pts[1].e, pts[1].tok, hexBig(new(big.Int).Sub(gr.r, one)))
+				g.emit("C03 batchpow - %s %s %s 9 0 5 0,1,8", gr.params(), pts[1].e, pts[1].tok)
+				g.emit("C03 batchpow - %s %s %s 0 2 3 -", gr.params(), pts[1].e, pts[1].tok)
+			}
+			// quick: four groups per run get one formula batch at a window-size change with a table of ≤ 2^12 entries, and one
+			// cheap G1 group gets a batch beyond the c = 17 threshold
+			if !g.thorough() {
+				bits := uint64(gr.r.BitLen())
+				emitBP := func(N, ns int) {
+					idx := []string{"0", hexBig(big.NewInt(int64(N - 1)))}
+					for i := 0; i < ns; i++ {
+						idx = append(idx, hexBig(big.NewInt(int64(g.rng.intn(N)))))
+					}
+					g.emit("C03 batchpow - %s %s %s %s %s %s %s", gr.params(), pts[1].e, pts[1].tok, hexBig(big.NewInt(int64(N))),
+						hexBig(g.rng.bigBelow(gr.r)), hexBig(g.rng.bigBelow(gr.r)), strings.Join(idx, ","))
+				}
+				if quickBP[k] == 1 {
+					var cand []int
+					for _, N := range c03BatchSizes(bits, 1<<16) {
+						if c := c03BestC(bits, uint64(N)); N >= 8 && c <= 13 {
+							cand = append(cand, N)
+						}
+					}
+					emitBP(cand[g.rng.intn(len(cand))], 1)
+				}
+				if quickBP[k] == 2 {
+					emitBP(3<<13+1+g.rng.intn(1<<13), 2)
 				}
 			}
 			for li, L := range lens {
@@ -485,9 +710,54 @@ func genC03(g *gen) {
 		for i := 0; i < g.budget(1, 100); i++ {
 			must = append(must, all[g.rng.intn(len(all))])
 		}
+		cls0 := len(must)
+		// class (a) for the three coordinate systems; scalars of up to limbs+1 words
+		low, inter := c03Sparse(g.rng, limbs+2)
+		low, inter = c03Shuffle(g.rng, low), c03Shuffle(g.rng, inter)
+		for vi, v := range []string{"aff", "proj", "ext"} {
+			if g.thorough() {
+				for i, s := range append(append([]*big.Int(nil), low...), inter...) {
+					must = append(must, teLine{v, pts[1+(i+vi)%2], g.rng.signed(s)})
+				}
+				continue
+			}
+			a, b := low[vi%len(low)], inter[vi%len(inter)]
+			c := low[(vi+3)%len(low)]
+			if vi%2 == 0 {
+				a = new(big.Int).Neg(a)
+			} else {
+				b = new(big.Int).Neg(b)
+			}
+			must = append(must, teLine{v, pts[1], a}, teLine{v, pts[1], b}, teLine{v, pts[2], c})
+		}
+		// class (b) where the package has an endomorphism (bandersnatch: λ² = −2 mod order)
+		if k == "bandersnatch" {
+			m2 := new(big.Int).Sub(t.n, big.NewInt(2))
+			if l := new(big.Int).ModSqrt(m2, t.n); l != nil {
+				vs := []string{"aff", "proj", "ext"}
+				vi := 0
+				for _, l := range []*big.Int{l, new(big.Int).Sub(t.n, l)} {
+					lo, hi := c03Unbalanced(g.rng, t.n, l)
+					for _, cls := range [][]c03Unb{lo, hi} {
+						for _, u := range c03PickUnb(g.rng, cls, g.budget(2, 12)) {
+							must = append(must, teLine{vs[vi%3], pts[1+vi%2], u.s})
+							vi++
+						}
+					}
+				}
+				for _, s := range c03SmallInverses(t.n)[:g.budget(2, 8)] {
+					must = append(must, teLine{vs[vi%3], pts[1], s})
+					vi++
+				}
+			}
+		}
 		g.emit("C03 tecurve - %s", t.params())
-		for _, l := range must {
-			g.emit("C03 te %s %s %s %s %s", l.v, t.params(), l.P.e, l.P.tok, hexBig(l.s))
+		for i, l := range must {
+			op := "te"
+			if i >= cls0 && (i-cls0)%g.budget(8, 3) != 0 {
+				op = "tex"
+			}
+			g.emit("C03 %s %s %s %s %s %s", op, l.v, t.params(), l.P.e, l.P.tok, hexBig(l.s))
 		}
 	}
 	// malformed stream: both sides must classify alike
